@@ -81,6 +81,8 @@ def judge(prog: Program, ref: Any, run: dict[str, Any], info: dict[str, Any]) ->
 
 
 def judge_hist(prog: Program, run: dict[str, Any], info: dict[str, Any]) -> list[dict[str, Any]]:
+    if info.get("mode") == "double":
+        return judge_double(prog, run, info)
     h = run["h"]
     problems: list[tuple[str, str, str]] = []
     sus = prog.spec["suspender"]
@@ -150,6 +152,61 @@ def judge_hist(prog: Program, run: dict[str, Any], info: dict[str, Any]) -> list
         problems.append(("resumed-without-signal", "the suspended task resumed although no signal was sent", "no-signal"))
     if not sent and final_s not in ("SUSPENDED", "NOT_STARTED", "CANCELED") and suspends:
         problems.append(("did-not-stay-suspended", f"no signal sent, yet stage S ended {final_s}", "not-suspended"))
+    return one_violation("C18", problems, h)
+
+
+# ---------------------------------------------------------------------------
+# two identical persistent signals for a stage that waits for two
+# ---------------------------------------------------------------------------
+def _run_double(ch: Choices, tier: str) -> tuple[Program, dict[str, Any], dict[str, Any]]:
+    """Crash-free engine D: stage S's task suspends until it has been resumed twice; two persistent signals with the *same*
+    name and payload are sent at seeded delivery steps (both before S starts, one before / one while it runs or is
+    suspended, both after the first suspend, ...).  Each of them must be consumed exactly once: S resumes twice and ends."""
+    from .common import run_exec, swarm_opts
+
+    sus = {"b": "suspender", "n": 2, "out": {"k0": "s"}}
+    pre = bool(ch.pick("c18.dbl.pre", 2))
+    stages = ([{"ref": "A", "deps": [], "ctx": {}, "tasks": [ok(k1="s")]}] if pre else []) + \
+             [{"ref": "S", "deps": ["A"] if pre else [], "ctx": {}, "tasks": [sus]},
+              {"ref": "Z", "deps": ["S"], "ctx": {}, "tasks": [ok()]}]
+    prog = Program({"name": "c18-double", "wf_ctx": {}, "stages": stages, "suspender": task_name("S", 0)})
+    knobs = swarm_knobs(ch)
+    opts = swarm_opts(ch)
+    at1 = ch.pick("c18.dbl.at1", 30)
+    at2 = at1 + ch.pick("c18.dbl.gap", 25)
+    info: dict[str, Any] = {"engine": "D", "mode": "double", "persistent": True, "sent": 0, "at": [at1, at2]}
+
+    def st(ex: Exec) -> None:
+        n = [0]
+
+        def between(eng: Any) -> None:
+            for a in (at1, at2):
+                if n[0] == a:
+                    send(ex.world, ex.wf_id, True, "sig1")      # same name, same payload, two messages
+                    info["sent"] += 1
+            n[0] += 1
+
+        ex.eng.between = between
+
+    run = run_exec(prog, knobs, ch, opts, setup=st, max_steps=600)
+    return prog, run, info
+
+
+def judge_double(prog: Program, run: dict[str, Any], info: dict[str, Any]) -> list[dict[str, Any]]:
+    h = run["h"]
+    problems: list[tuple[str, str, str]] = []
+    handled = [r for r in h.audit if r["kind"] == "pm_ins" and ctx_handler(r["ctx"]) == "SignalStage"]
+    fs = run["fs"]
+    final_s = fs["stages"].get("S", {}).get("status")
+    ents = [e["result"] for e in h.ledger if e["key"] == prog.spec["suspender"]]
+    if run["quiescent"] and info["sent"] == 2 and len({r["row_id"] for r in handled}) >= 2:
+        if final_s == "SUSPENDED" or fs["wf_status"] != "SUCCEEDED":
+            problems.append(("persistent-signal-lost",
+                             f"two persistent signals (same name and payload) were sent and handled, the task that waits for two resumed "
+                             f"{sum(1 for x in ents if 'resumed' in x)} time(s): stage S is {final_s}, workflow {fs['wf_status']}; executions {ents}",
+                             "lost-one-of-two"))
+        elif sum(1 for x in ents if "resumed" in x) != 2:
+            problems.append(("resumed-twice", f"two signals, executions {ents}", "double-resume-count"))
     return one_violation("C18", problems, h)
 
 
@@ -263,6 +320,8 @@ def _run_w(ch: Choices, tier: str) -> tuple[Program, dict[str, Any], dict[str, A
 
 
 def _flow(ch: Choices, tier: str) -> tuple[Program, dict[str, Any], dict[str, Any]]:
+    if ch.flip("c18.double", 0.12):
+        return _run_double(ch, tier)
     if ch.flip("c18.w", 0.35):
         return _run_w(ch, tier)
     return _run_d(ch, tier)
